@@ -4,7 +4,7 @@
 // Case line (fields separated by one space; names/paths/targets hex-encoded; "-" = empty list):
 //
 //	copy <blocksize> <ctrOutHex> <host> <mounts> <secrets> <colls>
-//	 host    = ';'-list of <relpathHex>:f:<seed>.<len> | <relpathHex>:d: | <relpathHex>:l:<targetHex> | <relpathHex>:p:
+//	 host    = ';'-list of <relpathHex>:f:<seed>.<len> | <relpathHex>:d: | <relpathHex>:l:<targetHex> | <relpathHex>:p: (also :s: :c: :b: socket, character device, block device)
 //	           paths are relative to a fresh temp root R, parents first; hostOutputDir = R/h1/h2/o
 //	 mounts  = ';'-list of <ctrPathHex>:<kind>:<flags>:<coll>:<pathHex>   flags ⊆ "wx" or "-", coll = index or "-"
 //	 secrets = ','-list of <ctrPathHex>
@@ -358,6 +358,23 @@ func verifC17Case(line string) (out string) {
 			err = os.Symlink(verifC17Unhex(p[2]), hp)
 		case "p":
 			err = syscall.Mkfifo(hp, 0644)
+		case "s":
+			// a socket inode (what bind(2) on a unix socket leaves behind)
+			err = syscall.Mknod(hp, syscall.S_IFSOCK|0644, 0)
+		case "c", "b":
+			// character device 1:3 (null) / block device 7:0 (loop0); where mknod of devices is not
+			// permitted (no CAP_MKNOD) a FIFO stands in: every kind is "not regular, not directory,
+			// not symlink" for the copier
+			mode := uint32(syscall.S_IFCHR | 0644)
+			dev := 1<<8 | 3
+			if p[1] == "b" {
+				mode = uint32(syscall.S_IFBLK | 0644)
+				dev = 7 << 8
+			}
+			err = syscall.Mknod(hp, mode, dev)
+			if err == syscall.EPERM {
+				err = syscall.Mkfifo(hp, 0644)
+			}
 		default:
 			return "bad-op"
 		}
